@@ -478,4 +478,7 @@ class PC(StructureEstimator):
                 undirected_edges.append((u, v))
             else:
                 directed_edges.append((u, v))
-        return PDAG(directed_ebunch=directed_edges, undirected_ebunch=undirected_edges)
+        result = PDAG(directed_ebunch=directed_edges, undirected_ebunch=undirected_edges)
+        # Variables without any edge are part of the model as well.
+        result.add_nodes_from(skeleton.nodes())
+        return result
